@@ -190,9 +190,13 @@ func TestC19(t *testing.T) {
 				if used[tg] {
 					continue
 				}
-				for _, tx := range texts2 {
+				for _, tx := range []string{"one", "two", ""} { // an entry may hold an empty text: (tag, "") is a pair like any other
 					used[tg] = true
-					build(append(cur, ap.LangRefValue{Ref: tg, Value: ap.Content(tx)}), used)
+					v := ap.Content(tx)
+					if tx == "" && tg == "fr" {
+						v = nil // empty as nil and as zero-length text
+					}
+					build(append(cur, ap.LangRefValue{Ref: tg, Value: v}), used)
 					used[tg] = false
 				}
 			}
